@@ -435,6 +435,31 @@ func PoolConcurrent(pw *poolWriter, seed int64, ty string, ch, l, k, G, M, procs
 				t := atomic.AddInt64(&ticket, 1)
 				logs[g] = append(logs[g], &PEvent{Op: "Get", G: g + 1, T: t, Res: "ok", View: obsOf(v), ptr: v.Raw(), Allocs: -1})
 				// sometimes hold a second buffer and return the first one first (get a, get b, put a, ..., put b)
+				if k == 0 || ch == 0 { // zero-shaped pool: sample appends are no-ops; sometimes the holder grows its buffer and keeps it
+					x := int64(1 + (g*7+m)%100)
+					v.AppendSample(x)
+					t = atomic.AddInt64(&ticket, 1)
+					logs[g] = append(logs[g], &PEvent{Op: "Use", G: g + 1, T: t, Kind: "AppendSample", A: []int64{x}, Res: "ok", View: obsOf(v), ptr: v.Raw(), Allocs: -1})
+					if ch > 0 && rng.Intn(3) == 0 {
+						src := NewView(ty, allocator(ch, 1, 1))
+						in := make([]int64, ch)
+						for i := range in {
+							in[i] = x
+						}
+						src.Write(KindOf(ty), in)
+						v.Append(src)
+						t = atomic.AddInt64(&ticket, 1)
+						logs[g] = append(logs[g], &PEvent{Op: "Use", G: g + 1, T: t, Kind: "AppendGrow", A: in, Cap: v.Cap(), Res: "ok", View: obsOf(v), ptr: v.Raw(), Allocs: -1})
+						t = atomic.AddInt64(&ticket, 1)
+						logs[g] = append(logs[g], &PEvent{Op: "Forget", G: g + 1, T: t, Res: "ok", ptr: v.Raw(), Allocs: -1})
+						continue
+					}
+					t = atomic.AddInt64(&ticket, 1)
+					e := &PEvent{Op: "Put", G: g + 1, T: t, ptr: v.Raw(), Allocs: -1}
+					logs[g] = append(logs[g], e)
+					e.Res = run(func() { pool.Put(v, byValue) })
+					continue
+				}
 				var v2 View
 				if poolPairs || rng.Intn(3) == 0 {
 					v2 = pool.Get(byValue)
@@ -606,6 +631,13 @@ func runPoolProfile(profile string, thorough bool, seed int64, out string) (*Sta
 			st.Extra["gets"] += g
 			st.Extra["reused_gets"] += r
 			st.Extra[fmt.Sprintf("G%d_M%d_P%d", c.G, c.M, c.P)] = g
+		}
+		// zero-shaped pools (no capacity / no channels) shared by 8 goroutines
+		for i, sh := range [][3]int{{2, 0, 0}, {0, 0, 3}} {
+			g, r := PoolConcurrent(pw, seed+70+int64(i), []string{"int32", "float64"}[i], sh[0], sh[1], sh[2], 8, 60, 8, false)
+			st.Extra["gets"] += g
+			st.Extra["reused_gets"] += r
+			st.Extra[fmt.Sprintf("zero_shape_%d", i)] = g
 		}
 		// pairs: 8 goroutines that always hold two buffers, tight loop, allocator shared by pointer
 		poolPairs = true
